@@ -132,6 +132,10 @@ def gen_csv(tier):
         for fill in itertools.product(pats, repeat=nrows):
             for hdr in (True, False):
                 yield {"k": "csv", "fill": [list(f) for f in fill], "hdr": hdr}
+                if nrows == 1:
+                    # wherever the external select sits, the itemsets CSV is produced
+                    for place in ("group", "repeat", "loop", "nested"):
+                        yield {"k": "csv", "fill": [list(f) for f in fill], "hdr": hdr, "place": place}
                 if nrows <= 2 and any(any(f) for f in fill):
                     for vals in (1, 2):
                         yield {"k": "csv", "fill": [list(f) for f in fill], "hdr": hdr, "vals": vals}
@@ -507,9 +511,16 @@ def build_csv(case):
                 # values: plain, with inner double spaces, with quotes / commas / non-ASCII (the CSV must reproduce the cell)
                 row[col] = [f"{col}{i}", f"{col}  two  spaces {i}", f'{col},"q" \u00e9{i}'][case.get("vals", 0)]
         ext.append(row)
-    wb = {"survey": [{"type": "text", "name": "st", "label": "ST"},
-                     {"type": "select_one_external e", "name": "s", "label": "S", "choice_filter": "state=${st}"}],
+    sel = {"type": "select_one_external e", "name": "s", "label": "S", "choice_filter": "state=${st}"}
+    place = case.get("place", "top")
+    body = {"top": [sel], "group": [{"type": "begin group", "name": "w", "label": "W"}, sel, {"type": "end group"}],
+            "repeat": [{"type": "begin repeat", "name": "w", "label": "W"}, sel, {"type": "end repeat"}],
+            "loop": [{"type": "begin loop over lc", "name": "w", "label": "W"}, sel, {"type": "end loop"}],
+            "nested": [{"type": "begin repeat", "name": "w", "label": "W"}, {"type": "begin group", "name": "w2", "label": "W2"}, sel, {"type": "end group"}, {"type": "end repeat"}]}[place]
+    wb = {"survey": [{"type": "text", "name": "st", "label": "ST"}, *body],
           "external_choices": ext}
+    if place == "loop":
+        wb["choices"] = [{"list_name": "lc", "name": "k1", "label": "K1"}, {"list_name": "lc", "name": "k2", "label": "K2"}]
     if case["hdr"]:
         wb["external_choices_header"] = [{"list_name": None, "name": None, "label": None, "state": None, "zz": None}]
     return wb
@@ -548,7 +559,8 @@ def check_csv(case, wb, out, viol):
             viol.append(("itemsets-extra-cells", str(r)))
     # the select is an input with a query on its own list and filter
     obs = O.Obs(out.xform)
-    el = next((e for e, tag, ref, anc in obs.body_controls() if ref == "/data/s"), None)
+    sref = {"top": "/data/s", "group": "/data/w/s", "repeat": "/data/w/s", "loop": "/data/w/k1/s", "nested": "/data/w/w2/s"}[case.get("place", "top")]
+    el = next((e for e, tag, ref, anc in obs.body_controls() if ref == sref), None)
     if el is None or O.local(el.tag) != "input" or norm_ws(el.get("query") or "").replace("[ ", "[").replace(" ]", "]") != "instance('e')/root/item[state= /data/st]".replace("= /", "= /"):
         q = None if el is None else el.get("query")
         if q is None or norm_ws(q).replace(" ", "") != "instance('e')/root/item[state=/data/st]":
